@@ -29,6 +29,8 @@ HASHTYPES = [0x01, 0x02, 0x03, 0x81, 0x82, 0x83, 0x00, 0x04, 0x7f, 0x80, 0xff, 0
 SHAPES = [(1, 1), (2, 2), (3, 1), (2, 0), (3, 3)]
 SECS = [11, 12, 13, 14, 15]
 P2SHF = frozenset([RI.P2SH])
+CLEANF = frozenset([RI.P2SH, RI.CLEANSTACK])
+ALLF = frozenset([RI.P2SH, RI.CLEANSTACK, RI.NULLDUMMY, RI.DISCOURAGE])
 NONE = frozenset()
 
 
@@ -265,7 +267,7 @@ class SignEditVerify(Family):
         n = 0
         what = '%s hashtype=%#04x shape=%d/%d idx=%d' % (name, ht, nin, nout, idx)
         # step 1: the signed input verifies
-        for fs in (NONE, P2SHF):
+        for fs in (NONE, P2SHF, CLEANF, ALLF):
             r = verify(sig_script, spk, m, idx, fs)
             n += 1
             if r[0] != 'ok':
@@ -309,6 +311,17 @@ class SignEditVerify(Family):
                         s4 = list(sigs)
                         s4[j] = sigs[i]
                         subs.append(('signature %d duplicated into slot %d' % (i, j), mk_sig(s4), False))
+        if len(sigs) >= 2:
+            # signatures of one multisig may use different hash-type bytes, each committing to its own digest: the second
+            # signature is made over the type byte with bit 0x40 flipped (an undefined but allowed variant of the same base type)
+            ht2 = ht ^ 0x40
+            d2 = SH.legacy(subscript, m, idx, ht2)[0]
+            alt = bytes(EC.der_encode(*EC.low_s(*EC.sign_with_nonce(signers[1], d2, 888)))) + bytes([ht2])
+            mixed = [sigs[0], alt] + sigs[2:]
+            subs.append(('mixed hash-type bytes %#x / %#x in one multisig' % (ht, ht2), mk_sig(mixed), True))
+            relabel = [sigs[0], alt[:-1] + bytes([ht])] + sigs[2:]
+            same = SH.legacy(subscript, m, idx, ht) == SH.legacy(subscript, m, idx, ht2)
+            subs.append(('signature made for type %#x relabelled %#x next to a %#x signature' % (ht2, ht, ht), mk_sig(relabel), same))
         if p2sh:
             # substituted redeem script with valid signatures by the foreign key(s)
             fpub = EC.pubkey(foreign, True)
